@@ -708,3 +708,52 @@ pub(crate) fn any_verbatim_of<const N: usize>(bps: u8) -> Verbatim {
     }
     Verbatim::from_samples(&s, bps)
 }
+
+/// Residual from concrete arrays (no 64-lane reductions, see any_residual).
+pub(crate) fn residual_from_arrays<const B: usize, const PO: u8, const NP: usize>(ps: [u8; NP], qs: [u32; B], rs: [u32; B], warmup: usize) -> Residual {
+    let mut psv = Vec::with_capacity(NP);
+    let mut sum_p = 0usize;
+    let mut p = 0;
+    while p < NP {
+        psv.push(ps[p]);
+        sum_p += ps[p] as usize;
+        p += 1;
+    }
+    let mut qv = Vec::with_capacity(B);
+    let mut rv = Vec::with_capacity(B);
+    let mut sum_q = 0usize;
+    let mut t = 0;
+    while t < B {
+        qv.push(qs[t]);
+        rv.push(rs[t]);
+        sum_q += qs[t] as usize;
+        t += 1;
+    }
+    Residual {
+        partition_order: PO,
+        block_size: B,
+        warmup_length: warmup,
+        rice_params: psv,
+        quotients: qv,
+        remainders: rv,
+        sum_quotients: sum_q,
+        sum_rice_params: sum_p,
+    }
+}
+/// Concrete shape (parameters, quotients, warm-up), symbolic remainders.
+pub(crate) fn residual_sym_remainders<const B: usize, const PO: u8, const NP: usize>(ps: [u8; NP], qs: [u32; B], warmup: usize) -> Residual {
+    let mut rs: [u32; B] = kani::any();
+    let mut qs = qs;
+    let plen = B / NP;
+    let mut t = 0;
+    while t < B {
+        if t < warmup {
+            rs[t] = 0;
+            qs[t] = 0;
+        } else {
+            kani::assume(rs[t] < (1u32 << ps[t / plen]));
+        }
+        t += 1;
+    }
+    residual_from_arrays::<B, PO, NP>(ps, qs, rs, warmup)
+}
